@@ -1025,6 +1025,7 @@ class Engine:
         self.path_labels = []
         self.path_inconclusive = False
         self.aborted = False
+        self.abort_reason = None
         self.format_concretize = False
         self.hash_candidates = []
         self.path_state = {}       # free for stubs (hash registry, clocks, ...)
@@ -1053,19 +1054,18 @@ class Engine:
             cut = False
             try:
                 fn(self)
-            except PathAbort as e:
+            except PathAbort:
+                pass
+            finally:
+                self.solver.pop()
+            if self.aborted:
                 cut = True
-                if e.args and e.args[0] == 'frontier':
+                if self.abort_reason == 'frontier':
                     frontier.append(list(self.dec))
-                elif e.args and e.args[0] == 'inconclusive':
+                elif self.abort_reason == 'inconclusive':
                     self.stats.inconclusive += 1
                 else:
                     self.stats.aborted += 1
-            finally:
-                self.solver.pop()
-            if self.aborted and not cut:
-                cut = True
-                self.stats.aborted += 1
             self.stats.paths += 1
             if not cut:
                 if self.path_inconclusive:
@@ -1113,6 +1113,12 @@ class Engine:
             self.solver.add(v <= hi)
         return SInt(v)
 
+    def _abort(self, reason):
+        self.aborted = True
+        if self.abort_reason is None:
+            self.abort_reason = reason
+        raise PathAbort(reason)
+
     def _decide(self, n_alt, feasible_fn):
         """generic decision point with n_alt alternatives"""
         if self.aborted:
@@ -1121,12 +1127,10 @@ class Engine:
             d = self.prefix[self.pos]
         else:
             if self.max_depth is not None and self.pos >= self.max_depth:
-                self.aborted = True
-                raise PathAbort('frontier')
+                self._abort('frontier')
             alts = feasible_fn()
             if not alts:
-                self.aborted = True
-                raise PathAbort('infeasible')
+                self._abort('infeasible')
             d = alts[0]
             for other in alts[1:]:
                 self.work.append(self.dec + [other])
@@ -1246,15 +1250,13 @@ class Engine:
                 self.dec.append(d)
             else:
                 if self.max_depth is not None and self.pos >= self.max_depth:
-                    self.aborted = True
-                    raise PathAbort('frontier')
+                    self._abort('frontier')
                 r = self._check()
                 if r != z3.sat:
-                    self.aborted = True
                     if r == z3.unknown:
                         self.path_inconclusive = True
-                        raise PathAbort('inconclusive')
-                    raise PathAbort('infeasible')
+                        self._abort('inconclusive')
+                    self._abort('infeasible')
                 v = self.solver.model().eval(e, model_completion=True).as_long()
                 d = ('v', v)
                 if _len(excluded) + 1 > self.max_fork:
@@ -1351,8 +1353,7 @@ class Engine:
             return x
         r = self._check()
         if r != z3.sat:
-            self.aborted = True
-            raise PathAbort('infeasible')
+            self._abort('infeasible')
         v = self.solver.model().eval(x.e, model_completion=True).as_long()
         self.solver.add(x.e == v)
         self._learn_eq(z3.simplify(x.e), v)
@@ -1363,13 +1364,11 @@ class Engine:
         if c is True:
             return
         if c is False:
-            self.aborted = True
-            raise PathAbort('assume')
+            self._abort('assume')
         self.solver.add(_be(c))
         r = self._check()
         if r == z3.unsat:
-            self.aborted = True
-            raise PathAbort('assume')
+            self._abort('assume')
         if r == z3.unknown:
             self.path_inconclusive = True
 
@@ -1379,7 +1378,7 @@ class Engine:
             out[nm] = model.eval(v, model_completion=True).as_long()
         return out
 
-    def check(self, cond, label, detail=None):
+    def check(self, cond, label, detail=None, sig=None):
         """property obligation: must hold for every value on this path"""
         self.path_labels.append(label)
         if _isinstance(cond, SInt):
@@ -1387,9 +1386,8 @@ class Engine:
         if not _isinstance(cond, SBool):
             self.stats.checks_trivial += 1
             if not cond:
-                self._violation(label, label, detail, None)
-                self.aborted = True
-                raise PathAbort('violated')
+                self._violation(label, sig or label, detail, None)
+                self._abort('violated')
             return True
         e = cond.e
         if self.fixed:
@@ -1406,13 +1404,12 @@ class Engine:
         if r == z3.unknown:
             self.path_inconclusive = True
             return True
-        self._violation(label, label, detail, self.solver.model())
+        self._violation(label, sig or label, detail, self.solver.model())
         # continue with the values for which the obligation holds (if any)
         self.solver.add(e)
         r = self._check()
         if r != z3.sat:
-            self.aborted = True
-            raise PathAbort('violated')
+            self._abort('violated')
         return False
 
     def fail(self, label, sig=None, detail=None):
@@ -1545,10 +1542,10 @@ class ConcreteEngine:
         if not c:
             raise HarnessError('native replay: assumption false under the model')
 
-    def check(self, cond, label, detail=None):
+    def check(self, cond, label, detail=None, sig=None):
         self.path_labels.append(label)
         if not cond:
-            self.failed.append((label, label, detail))
+            self.failed.append((label, sig or label, detail))
             return False
         return True
 
